@@ -3,7 +3,7 @@ import json, glob, os, re, sys
 rows = []
 for f in sorted(glob.glob(os.path.join(os.path.dirname(__file__), "..", "seeded", "*", "meta.json"))):
     m = json.load(open(f))
-    rnd = {"a": 1, "b": 1, "c": 2, "d": 2, "e": 3, "f": 3, "g": 4, "h": 4}.get(m["id"][-1], 5)
+    rnd = {"a": 1, "b": 1, "c": 2, "d": 2, "e": 3, "f": 3, "g": 4, "h": 4, "i": 5, "j": 5}.get(m["id"][-1], 6)
     if len(sys.argv) > 1 and int(sys.argv[1]) != rnd:
         continue
     summ = re.split(r"(?<=[a-z\)])\. ", m["summary"].replace("\n", " "))[0][:170]
